@@ -377,6 +377,15 @@ class Check:
                                   "Register in impl/src/memory.rs no longer have the shape the translator accepts (%s): "
                                   "gen/MemProtSrc.v cannot be regenerated" % e)
                 return False
+        if pid == "C19":
+            import translate_gentl
+            try:
+                translate_gentl.regenerate(REPO)
+            except (translate_gentl.ShapeError, OSError) as e:
+                self.proof_broken("tools/translate_gentl.py: the buffer protocol of gentl/src/ffi/mod.rs (trait CopyTo and its "
+                                  "implementations, impl_copy_to_for_numeric!, copy_info, the GC_ERROR table) no longer has the "
+                                  "shape the translator accepts (%s): gen/GenTLSrc.v cannot be regenerated" % e)
+                return False
         if pid == "C16":
             import translate_camera
             try:
@@ -462,6 +471,7 @@ class Check:
               "C01": "tools/translate_codec.py (macro arms and match arms of int_from_slice / bytes_from_int / float_from_slice / bytes_from_float, genapi/src/utils.rs -> gen/CodecSrc.v) and lib/RustBytes.v (from_xx_bytes / to_xx_bytes / copy_from_slice)",
               "C18": "tools/translate_access.py (NodeElementBase / RegisterBase is_readable, is_writable and the three controls, genapi/src/node_base.rs + register_base.rs -> gen/AccessSrc.v over model/AccessOps.v)",
               "C05": "tools/translate_formulaops.py (own parser / type checker / Gallina emitter for the evaluator of genapi/src/formula.rs: the From impls and coercions of EvaluationResult, wrapping_pow with its loop as a fuelled Fixpoint, every arm of Expr::eval_binop and Expr::eval_unop with the local macro_rules! expanded from their definitions, Expr::eval -> gen/FormulaOpsSrc.v), model/FormulaOps.v (the meaning of i64::overflowing_* / wrapping_* / signum, of the `as` casts and of the f64 operations as calls into the oracle record) and lib/RustInt.v",
+              "C19": "tools/translate_gentl.py (statement-level translator of `impl From<&GenTlError> for GC_ERROR`, newtype_enum! INFO_DATATYPE and every `impl CopyTo for ..` of gentl/src/ffi/mod.rs with impl_copy_to_for_numeric! expanded from its parsed definition -> gen/GenTLSrc.v; the raw-pointer operations (dst.is_null(), *dst_size, *dst = x, copy_nonoverlapping, dst.add(n).write(b)) are interpreted by model/GtlOps.v over the state (NULL flag, size cell, caller's buffer); trait CopyTo, copy_info and the forwarding From impls are pinned) and lib/RustInt.v (debug-build usize arithmetic)",
               "C20": "tools/translate_memprot.py + tools/minirust.py (typed mini-Rust translator of enum AccessRight with every method of impl AccessRight, struct MemoryProtection with every method of impl MemoryProtection, and the provided methods write / read / range of trait Register, impl/src/memory.rs -> gen/MemProtSrc.v; Vec indexing, `&mut v[i]` places, slicing, copy_from_slice, vec![x; n], fold / for_each / for over an item list interpreted by model/MemProtOps.v) and lib/RustInt.v (debug-build semantics of the integer operations)",
               "C02": "tools/translate_bitmask.py (typed mini-Rust translator of `impl BitMask`, genapi/src/masked_int_reg.rs -> gen/BitMaskSrc.v) and lib/RustInt.v (debug-build semantics of the integer operations)",
               "C16": "tools/translate_camera.py (statement-level translator of Camera::{params_ctxt, open, load_context, start_streaming, stop_streaming, close}, cameleon/src/camera.rs -> gen/CameraSrc.v: every statement in source order in the monad of model/Camera.v; self.ctrl / self.strm method calls with `?`, the guards with their early returns, expect_node!(..).set_value / .execute with node name, interface and literal from the source, channel(cap, DEFAULT_BUFFER_CAP), self.ctxt = Some(Ctxt::from_xml(..)?), clear_cache are interpreted by model/CamOps.v; macro_rules! expect_node, payload::channel, the fields of struct Camera and `use tracing::info` are pinned; info! lines and #[tracing::instrument] skipped; a Result that is not propagated is a ShapeError)",
